@@ -18,13 +18,13 @@ namespace DD
 
 /-- a token that is either a name or a number (`varname : name | number`; the
 `info` column of a node line after `try: int(info)`) -/
-inductive Tok where
+inductive DddmpTok where
   | str (s : String)
   | num (i : Int)
 deriving DecidableEq, Repr, Inhabited
 
 /-- how the name reaches `dd.bdd.BDD.vars` in the state dumps -/
-def Tok.show : Tok → String
+def DddmpTok.show : DddmpTok → String
   | .str s => s
   | .num i => toString i
 
@@ -60,7 +60,7 @@ def dedupInts : List Int → List Int
 /-- a line `u info index then else` between `.nodes` and `.end` -/
 structure DddmpNode where
   u : Int
-  info : Tok
+  info : DddmpTok
   index : Int
   thn : Int
   els : Int
@@ -73,8 +73,8 @@ structure DddmpFile where
   nnodes : Option Int := none
   nvars : Option Int := none
   nsuppvars : Option Int := none
-  suppvarnames : Option (List Tok) := none
-  orderedvarnames : Option (List Tok) := none
+  suppvarnames : Option (List DddmpTok) := none
+  orderedvarnames : Option (List DddmpTok) := none
   ids : Option (List Int) := none
   permids : Option (List Int) := none
   auxids : Option (List Int) := none
@@ -108,14 +108,14 @@ def dddmpAssertConsistent (f : DddmpFile) : Except Err Unit := do
   | some l => if lenNe l f.nroots then throw .assertion
 
 /-- `{var: k for k, var in enumerate(l)}` -/
-def enumDict (l : List Tok) : List (Tok × Int) :=
+def enumDict (l : List DddmpTok) : List (DddmpTok × Int) :=
   dictOf (l.zipIdx.map fun p => (p.1, (p.2 : Int)))
 
 /-- the `info2permid` table of `_parse_header`, by `.varinfo` case -/
-def dddmpInfoTable (f : DddmpFile) (ids permids : List Int) : Except Err (List (Tok × Int)) :=
+def dddmpInfoTable (f : DddmpFile) (ids permids : List Int) : Except Err (List (DddmpTok × Int)) :=
   match f.varinfo with
-  | some 0 => pure (dictOf ((ids.zip permids).map fun p => (Tok.num p.1, p.2)))
-  | some 1 => pure (dictOf (permids.map fun k => (Tok.num k, k)))
+  | some 0 => pure (dictOf ((ids.zip permids).map fun p => (DddmpTok.num p.1, p.2)))
+  | some 1 => pure (dictOf (permids.map fun k => (DddmpTok.num k, k)))
   | some 2 => throw Err.notImplemented
   | some 3 =>
     match f.orderedvarnames with
@@ -125,7 +125,7 @@ def dddmpInfoTable (f : DddmpFile) (ids permids : List Int) : Except Err (List (
   | _ => throw Err.other              -- `Exception('unknown varinfo case')`
 
 /-- ... with the entry for `'T'` -/
-def dddmpInfo2permid (f : DddmpFile) (ids permids : List Int) : Except Err (List (Tok × Int)) :=
+def dddmpInfo2permid (f : DddmpFile) (ids permids : List Int) : Except Err (List (DddmpTok × Int)) :=
   match dddmpInfoTable f ids permids with
   | .error e => .error e
   | .ok t =>
@@ -134,13 +134,13 @@ def dddmpInfo2permid (f : DddmpFile) (ids permids : List Int) : Except Err (List
     | some n => .ok (dictSet t (.str "T") (n + 1))
 
 /-- `permid2var[k]: k` for an item `k` of `sorted(self.permuted_var_ids)` -/
-def dddmpLevelItem (permid2var : List (Int × Tok)) (k : Int) : Except Err (Tok × Int) :=
+def dddmpLevelItem (permid2var : List (Int × DddmpTok)) (k : Int) : Except Err (DddmpTok × Int) :=
   match dictGet permid2var k with
   | some var => .ok (var, k)
   | none => .error .key
 
 /-- the `levels` table of `_parse_header` -/
-def dddmpLevels (f : DddmpFile) (permids : List Int) : Except Err (List (Tok × Int)) :=
+def dddmpLevels (f : DddmpFile) (permids : List Int) : Except Err (List (DddmpTok × Int)) :=
   match f.orderedvarnames with
   | some ov => .ok (enumDict ov)
   | none =>
@@ -153,11 +153,11 @@ def dddmpLevels (f : DddmpFile) (permids : List Int) : Except Err (List (Tok × 
       | .ok l => .ok (dictOf l)
     | none =>
       -- `levels = {idx: level for level, idx in enumerate(permids)}`
-      .ok (dictOf (permids.zipIdx.map fun p => (Tok.num p.1, (p.2 : Int))))
+      .ok (dictOf (permids.zipIdx.map fun p => (DddmpTok.num p.1, (p.2 : Int))))
 
 /-- `Parser._parse_header` after the LALR parse: `(info2permid, levels, roots)` -/
 def dddmpHeader (f : DddmpFile) :
-    Except Err (List (Tok × Int) × List (Tok × Int) × List Int) :=
+    Except Err (List (DddmpTok × Int) × List (DddmpTok × Int) × List Int) :=
   match dddmpAssertConsistent f with
   | .error e => .error e
   | .ok _ =>
@@ -179,7 +179,7 @@ structure DddmpEntry where
 deriving Repr, Inhabited, DecidableEq
 
 /-- one iteration of the loop of `_parse_body` (with `_add_node`) -/
-def dddmpAddNode (i2p : List (Tok × Int)) (bdd : List (Int × DddmpEntry)) (n : DddmpNode) :
+def dddmpAddNode (i2p : List (DddmpTok × Int)) (bdd : List (Int × DddmpEntry)) (n : DddmpNode) :
     Except Err (List (Int × DddmpEntry)) :=
   match dictGet i2p n.info with
   | none => .error .assertion           -- `info not in self.info2permid`
@@ -191,7 +191,7 @@ def dddmpAddNode (i2p : List (Tok × Int)) (bdd : List (Int × DddmpEntry)) (n :
     -- dddmp stores (high, low); `dd.bdd` uses (low, high)
     .ok (dictSet bdd n.u ⟨level, w, v⟩)
 
-def dddmpBodyLoop (i2p : List (Tok × Int)) :
+def dddmpBodyLoop (i2p : List (DddmpTok × Int)) :
     List (Int × DddmpEntry) → List DddmpNode → Except Err (List (Int × DddmpEntry))
   | bdd, [] => .ok bdd
   | bdd, n :: rest =>
@@ -200,26 +200,26 @@ def dddmpBodyLoop (i2p : List (Tok × Int)) :
     | .ok bdd' => dddmpBodyLoop i2p bdd' rest
 
 /-- `Parser._parse_body` -/
-def dddmpBody (f : DddmpFile) (i2p : List (Tok × Int)) : Except Err (List (Int × DddmpEntry)) :=
+def dddmpBody (f : DddmpFile) (i2p : List (DddmpTok × Int)) : Except Err (List (Int × DddmpEntry)) :=
   match dddmpBodyLoop i2p [] f.nodes with
   | .error e => .error e
   | .ok bdd => if lenNe bdd f.nnodes then .error .assertion else .ok bdd
 
 /-- `i: perm[k]` for an item `(k, i)` of `enumerate(sorted(perm))` -/
-def dddmpPermItem (perm : List (Int × Tok)) (p : Int × Nat) : Except Err (Int × Tok) :=
+def dddmpPermItem (perm : List (Int × DddmpTok)) (p : Int × Nat) : Except Err (Int × DddmpTok) :=
   match dictGet perm p.1 with
   | some var => .ok ((p.2 : Int), var)
   | none => .error .key
 
 /-- `levels[var]: new_levels[var]` for an item `(var, k)` of `levels` -/
-def dddmpO2nItem (newLevels : List (Tok × Int)) (p : Tok × Int) : Except Err (Int × Int) :=
+def dddmpO2nItem (newLevels : List (DddmpTok × Int)) (p : DddmpTok × Int) : Except Err (Int × Int) :=
   match dictGet newLevels p.1 with
   | some nk => .ok (p.2, nk)
   | none => .error .key
 
 /-- the re-indexing at the top of `load`: `(new_levels, old2new)` -/
-def dddmpReindex (levels : List (Tok × Int)) :
-    Except Err (List (Tok × Int) × List (Int × Int)) :=
+def dddmpReindex (levels : List (DddmpTok × Int)) :
+    Except Err (List (DddmpTok × Int) × List (Int × Int)) :=
   -- `perm = {k: var for var, k in levels.items()}`
   let perm := dictOf (levels.map fun p => (p.2, p.1))
   -- `perm = {i: perm[k] for i, k in enumerate(sorted(perm))}`
@@ -235,7 +235,7 @@ def dddmpReindex (levels : List (Tok × Int)) :
     | .ok o2n => .ok (newLevels, dictOf o2n)
 
 /-- `for var, level in levels.items(): self.add_var(var, level)` -/
-def dddmpAddVars : List (Tok × Int) → M Unit
+def dddmpAddVars : List (DddmpTok × Int) → M Unit
   | [] => pure ()
   | (var, level) :: rest => fun m =>
     match addVar var.show (some level) m with
@@ -243,7 +243,7 @@ def dddmpAddVars : List (Tok × Int) → M Unit
     | (.ok _, m') => dddmpAddVars rest m'
 
 /-- `_bdd.BDD(new_levels)` -/
-def dddmpNewMgr (newLevels : List (Tok × Int)) : Except Err Mgr :=
+def dddmpNewMgr (newLevels : List (DddmpTok × Int)) : Except Err Mgr :=
   -- `_assert_valid_ordering`
   let n := newLevels.length
   let nums := newLevels.map (·.2)
@@ -352,7 +352,7 @@ that the driver can print it and the harness can compare it with its own evaluat
 
 /-- the variable a node line is labelled with: the one `levels` puts at the level
 that `info2permid` gives to the `info` column -/
-def dddmpVarOf (i2p levels : List (Tok × Int)) (info : Tok) : Option Tok :=
+def dddmpVarOf (i2p levels : List (DddmpTok × Int)) (info : DddmpTok) : Option DddmpTok :=
   match dictGet i2p info with
   | none => none
   | some k => (levels.find? (fun p => p.2 = k)).map (·.1)
@@ -362,7 +362,7 @@ variable NAMES, read off the node list: a line labelled `T` is the constant true
 a line `u info _ then else` is `if info then [then] else [else]`, a negative number
 is the complement (an unlisted number or exhausted `fuel` reads as false, complemented
 for a negative number).  `fuel` bounds the depth. -/
-def evalFileF (i2p levels : List (Tok × Int)) (nodes : List DddmpNode) (α : String → Bool) :
+def evalFileF (i2p levels : List (DddmpTok × Int)) (nodes : List DddmpNode) (α : String → Bool) :
     Nat → Int → Bool
   | 0, x => decide (x < 0)
   | fuel + 1, x =>
@@ -402,7 +402,7 @@ def posOf (a : Int) : List Int → Option Nat
   | b :: l => if b = a then some 0 else (posOf a l).map (· + 1)
 
 /-- the name of the `j`-th support variable -/
-def dddmpSuppName (f : DddmpFile) (j : Nat) : Option Tok :=
+def dddmpSuppName (f : DddmpFile) (j : Nat) : Option DddmpTok :=
   match f.orderedvarnames with
   | some ov =>
     match (f.permids.getD [])[j]? with
@@ -414,7 +414,7 @@ def dddmpSuppName (f : DddmpFile) (j : Nat) : Option Tok :=
     | none => none
 
 /-- the variable NAME the `info` column of a non-terminal node line stands for -/
-def dddmpNameOf (f : DddmpFile) (info : Tok) : Option Tok :=
+def dddmpNameOf (f : DddmpFile) (info : DddmpTok) : Option DddmpTok :=
   match f.varinfo, info with
   | some 3, _ => if (f.orderedvarnames.getD []).contains info then some info else none
   | some 0, .num i => (posOf i (f.ids.getD [])).bind (dddmpSuppName f)
@@ -422,7 +422,7 @@ def dddmpNameOf (f : DddmpFile) (info : Tok) : Option Tok :=
   | _, _ => none
 
 /-- `evalFileF` with an arbitrary reading `varOf` of the `info` column -/
-def evalNodesF (varOf : Tok → Option Tok) (nodes : List DddmpNode) (α : String → Bool) :
+def evalNodesF (varOf : DddmpTok → Option DddmpTok) (nodes : List DddmpNode) (α : String → Bool) :
     Nat → Int → Bool
   | 0, x => decide (x < 0)
   | fuel + 1, x =>
@@ -448,7 +448,7 @@ fields `key=value`; lists separated by `,`; node lines `u:info:index:then:else`
 separated by `;`; a token that reads as an integer is a number (as in `int(info)`
 and in the grammar rule `varname : name | number`). -/
 
-def parseTok (s : String) : Tok :=
+def parseTok (s : String) : DddmpTok :=
   match s.toInt? with
   | some i => .num i
   | none => .str s
